@@ -181,4 +181,60 @@ theorem extend_closed_all (cfg : Cfg) (hk : cfg.extKeepAll = true) (hin : cfg.ex
   · rw [hroots.2.1]; exact rootOK_reRoot _ _
   · rw [hroots.2.2]; exact rootOK_reRoot _ _
 
+/-- the registry of the result: distinct names; specified scalars are still scalar leaves, no other entry carries a protected name -/
+theorem extend_prot_nodup (cfg : Cfg) (hk : cfg.extKeepAll = true) (ext : Ext) (s : Schema) (h : Heap)
+    (w : WFs (refOK s.types) h s) (hnewnd : (ext.newTypes.map (·.1)).Nodup) (hnew : ∀ e, e ∈ ext.newTypes → e.1 ∉ s.types.map (·.1))
+    (hnp : ∀ e, e ∈ ext.newTypes → isProtected e.1 = false)
+    (hframe : ∀ a, a < h.size → (extend cfg ext s h).1.read a = h.read a) :
+    (∀ e, e ∈ (extend cfg ext s h).2.types → protLeaf (extend cfg ext s h).1 e = true) ∧
+    ((extend cfg ext s h).2.types.map (·.1)).Nodup := by
+  have htypes : (extend cfg ext s h).2.types = (s.types.filter fun e => isProtected e.1) ++
+      (allocPlaceholders h ((s.types.filter fun e => !isProtected e.1).map (·.1) ++ ext.newTypes.map (·.1))).2 := by
+    simp only [extend, hk, if_true]
+  have hnames := allocPlaceholders_names ((s.types.filter fun e => !isProtected e.1).map (·.1) ++ ext.newTypes.map (·.1)) h
+  have hsrcnd : ((s.types.filter fun e => !isProtected e.1).map (·.1)).Nodup :=
+    List.Nodup.sublist (List.Sublist.map _ List.filter_sublist) w.nodup
+  have hprotnd : ((s.types.filter fun e => isProtected e.1).map (·.1)).Nodup :=
+    List.Nodup.sublist (List.Sublist.map _ List.filter_sublist) w.nodup
+  have hnsnd : ((s.types.filter fun e => !isProtected e.1).map (·.1) ++ ext.newTypes.map (·.1)).Nodup := by
+    refine List.nodup_append.mpr ⟨hsrcnd, hnewnd, ?_⟩
+    intro x hx y hy hxy
+    subst hxy
+    obtain ⟨e1, he1, rfl⟩ := List.mem_map.mp hx
+    obtain ⟨e2, he2, hq⟩ := List.mem_map.mp hy
+    exact hnew e2 he2 (by rw [hq]; exact List.mem_map.mpr ⟨e1, (List.mem_filter.mp he1).1, rfl⟩)
+  have hnsnp : ∀ x, x ∈ (s.types.filter fun e => !isProtected e.1).map (·.1) ++ ext.newTypes.map (·.1) → isProtected x = false := by
+    intro x hx
+    rcases List.mem_append.mp hx with hx | hx
+    · obtain ⟨e1, he1, rfl⟩ := List.mem_map.mp hx
+      simpa using (List.mem_filter.mp he1).2
+    · obtain ⟨e2, he2, rfl⟩ := List.mem_map.mp hx
+      exact hnp e2 he2
+  constructor
+  · intro e he
+    rw [htypes] at he
+    rcases List.mem_append.mp he with he | he
+    · obtain ⟨hes, hp⟩ := List.mem_filter.mp he
+      have hn := w.names e hes
+      obtain ⟨t, ht⟩ : ∃ t, h.readType e.2 = some t := by
+        simp only [nameOK] at hn
+        split at hn
+        · exact ⟨_, by assumption⟩
+        · cases hn
+      have hrd : (extend cfg ext s h).1.readType e.2 = h.readType e.2 := by
+        simp only [Heap.readType, hframe e.2 (readType_lt' ht)]
+      have := w.prot e hes
+      simp only [protLeaf, hrd] at this ⊢
+      exact this
+    · have : isProtected e.1 = false := hnsnp e.1 (by rw [← hnames]; exact List.mem_map.mpr ⟨e, he, rfl⟩)
+      simp [protLeaf, this]
+  · rw [htypes, List.map_append, hnames]
+    refine List.nodup_append.mpr ⟨hprotnd, hnsnd, ?_⟩
+    intro x hx y hy hxy
+    subst hxy
+    obtain ⟨e1, he1, rfl⟩ := List.mem_map.mp hx
+    have h1 := (List.mem_filter.mp he1).2
+    rw [hnsnp e1.1 hy] at h1
+    cases h1
+
 end PyGql.Heap.Own
